@@ -10,7 +10,7 @@ import fitcase
 
 PROP = 'C07'
 MODEL_OPS = 'ConvDirM.conv_dir1_m / conv_dir2_m (conv_sed: read_nu_order, ConvolveM.rebin_m, conv_m, conv_var_m; Table.order_to_match)'
-RULE = ('packages with 1-8 models, 1-5 apertures, 5-24 frequencies, every SED stored in its own spectral order, SED file names whose sorted order differs from the '
+RULE = ('packages with 1-8 models, 1-5 apertures, 5-24 frequencies, every SED handed to SED.write in its own spectral order and its file then stored in increasing or decreasing frequency, SED file names whose sorted order differs from the '
         'parameter-table order, a permuted parameter table, 1-3 filters at once (either storage order, normalised or not, inside / partially overlapping / wider than '
         'the SED range), written as a per-file package and as a cube package; convolve_model_dir on both; every row compared by name with the model and v1 with v2; '
         'every fourth package is a per-file package whose SEDs are on different grids (same length and end points with other interior points, or shorter; no cube form); then one source fitted from the v1 package and from the v2 package with memmap on and off. non-trivial = >= 2 models whose file order differs from the table order.')
